@@ -76,7 +76,7 @@ def run(module, cfg, *, workers=16, on_emit=None, timeout=3600, simulate=None, d
         cfg = f"gen_{rid}.cfg"
         with open(os.path.join(wd, cfg), "w") as fh:
             fh.write(cfg_text)
-    cmd = ["java", "-XX:+UseSerialGC" if workers == 1 else "-XX:+UseParallelGC", f"-Xmx{heap}"]
+    cmd = ["java", "-XX:+UseSerialGC" if workers == 1 else "-XX:+UseParallelGC", f"-Xmx{heap}", "-Xss64m"]
     if workers == 1:
         cmd += ["-XX:ActiveProcessorCount=2", "-Xshare:auto"]
     if deque:
